@@ -26,6 +26,22 @@
 (*         pods  : name -> [node, use : Res -> Nat, prod, pass, metric]]   *)
 (*  A node without a fresh NodeMetric has no measured usage: it is neither *)
 (*  source nor destination and does not count in the pool average.         *)
+(*                                                                         *)
+(* Several node pools (Part 1b).  A configuration is a SEQUENCE of pools,  *)
+(* each a cfg record as above plus  sel = [nil : BOOLEAN, labels : Seq]    *)
+(* (nil = no node selector: every node; otherwise the nodes carrying every *)
+(* listed label; rd.nodes[n].labels is the node's label list).  One round  *)
+(* processes the pools in order against the SAME measurements.  The table  *)
+(* of a pool is the table of the round input restricted to the nodes its   *)
+(* selector matches.  The predicates of Part 2 are evaluated per pool:     *)
+(*  - thresholds, source kind, underused nodes, headroom, anomaly streak,  *)
+(*    (Z): from the pool's own table / settings;                           *)
+(*  - the running ESTIMATE of a node (Src / Stop) is the node's, not the   *)
+(*    pool's: measured usage minus everything successfully evicted from it *)
+(*    in this round, by whichever pool;                                    *)
+(*  - the headroom of a pool's underused nodes is used up by the pool's    *)
+(*    own evictions only (nothing is demanded across pools);               *)
+(*  - (Fil) sees every eviction of the round so far.                       *)
 (***************************************************************************)
 EXTENDS Integers, Sequences, FiniteSets
 
@@ -116,6 +132,18 @@ Headroom0(T, k) ==
   IN  [r \in Res |-> SumF([m \in D |-> IF k = "node" THEN T.high[m][r] - T.use[m][r] ELSE T.phigh[m][r] - T.puse[m][r]], D)]
 
 -----------------------------------------------------------------------------
+(* Part 1b: node pools *)
+
+HasLabel(rd, n, lb) == \E j \in 1..Len(rd.nodes[n].labels) : rd.nodes[n].labels[j] = lb
+Matches(pool, rd, n) == IF pool.sel.nil THEN TRUE
+                        ELSE \A i \in 1..Len(pool.sel.labels) : HasLabel(rd, n, pool.sel.labels[i])
+PoolNodes(pool, rd) == {n \in NodesOf(rd) : Matches(pool, rd, n)}
+Restrict(rd, M) == [nodes |-> [n \in M |-> rd.nodes[n]], pods |-> rd.pods]
+\* the pool's table: measured usage of the selected nodes against the pool's thresholds (deviation thresholds: around the
+\* average of the selected measured nodes)
+PoolTable(pool, rd) == Table(pool, Restrict(rd, PoolNodes(pool, rd)))
+
+-----------------------------------------------------------------------------
 (* Part 2: property-level predicates.  cs = the Evict calls of this round made so far, in order, each     *)
 (* [pod, ok] (ok = the evictor reported success: only then the pod leaves the node).  sN / sP = number of *)
 (* consecutive rounds, this one included, in which the node's measured usage / prod usage was above its   *)
@@ -155,9 +183,12 @@ HdOK(T, rd, cs, p) ==
   LET n == rd.pods[p].node IN \A r \in Res : Hd(T, rd, cs, Kind(T, n))[r] > 0
 \* (Fil) the pod passes the evictor's filter AT THE MOMENT it is evicted.  The filter may depend on what this round
 \* already evicted: pods of one workload group (wl, "" = none) are let through one at a time (a per-workload limit on
-\* migrating pods, as the migration evictor applies it), so a pod whose group already lost a member this round fails
+\* migrating pods, as the migration evictor applies it), so a pod whose group already lost a member this round fails;
+\* and a pod that was already evicted successfully in this round (it stays listed on its node until the next round:
+\* eviction / migration is not instantaneous) is not let through a second time
 Wl(rd, p) == IF "wl" \in DOMAIN rd.pods[p] THEN rd.pods[p].wl ELSE ""
 FilOK(rd, cs, p) == /\ rd.pods[p].pass
+                    /\ \A i \in OkIdx(rd, cs) : cs[i].pod # p
                     /\ (Wl(rd, p) = "" \/ \A i \in OkIdx(rd, cs) : Wl(rd, cs[i].pod) # Wl(rd, p))
 \* (Z) nothing when no node is overloaded, none is underused, all are underused, or not more than NumberOfNodes are
 NothingToDo(cfg, T) ==
@@ -167,29 +198,33 @@ NothingToDo(cfg, T) ==
   \/ Cardinality(UnderusedSet(T)) <= cfg.numNodes
 ZOK(cfg, T) == ~NothingToDo(cfg, T)
 
-Allowed(cfg, T, rd, sN, sP, cs, p) ==
+\* cs = every Evict call of the round so far (estimates, filter); pcs = those made on behalf of THIS pool (its headroom)
+AllowedP(cfg, T, rd, sN, sP, cs, pcs, p) ==
   /\ p \in DOMAIN rd.pods
   /\ rd.pods[p].node \in Measured(T)
   /\ SrcOK(T, rd, cs, p)
   /\ AnOK(cfg, T, rd, sN, sP, p)
   /\ LowOK(T, rd, p)
-  /\ HdOK(T, rd, cs, p)
+  /\ HdOK(T, rd, pcs, p)
   /\ FilOK(rd, cs, p)
   /\ ZOK(cfg, T)
+\* one pool
+Allowed(cfg, T, rd, sN, sP, cs, p) == AllowedP(cfg, T, rd, sN, sP, cs, cs, p)
 
 \* what the specification sees for Evict(p) (explain mode / diagnostics)
-Why(cfg, T, rd, sN, sP, cs, p) ==
+WhyP(cfg, T, rd, sN, sP, cs, pcs, p) ==
   IF p \notin DOMAIN rd.pods THEN [unknownPod |-> p]
   ELSE LET n == rd.pods[p].node IN
   IF n \notin Measured(T) THEN [node |-> n, measured |-> FALSE]
   ELSE LET k == Kind(T, n) IN
-       [node |-> n, kind |-> k,
+       [node |-> n, kind |-> k, measured |-> TRUE,
         estimate |-> IF k = "prod" THEN PEst(T, rd, cs, n) ELSE Est(T, rd, cs, n),
         highThreshold |-> IF k = "prod" THEN T.phigh[n] ELSE T.high[n],
         src |-> SrcOK(T, rd, cs, p), an |-> AnOK(cfg, T, rd, sN, sP, p),
         streak |-> IF k = "prod" THEN sP[n] ELSE sN[n], required |-> cfg.anomaly,
-        low |-> LowOK(T, rd, p), headroom |-> Hd(T, rd, cs, IF k = "none" THEN "node" ELSE k),
-        hd |-> HdOK(T, rd, cs, p), fil |-> FilOK(rd, cs, p), z |-> ZOK(cfg, T)]
+        low |-> LowOK(T, rd, p), headroom |-> Hd(T, rd, pcs, IF k = "none" THEN "node" ELSE k),
+        hd |-> HdOK(T, rd, pcs, p), fil |-> FilOK(rd, cs, p), z |-> ZOK(cfg, T)]
+Why(cfg, T, rd, sN, sP, cs, p) == WhyP(cfg, T, rd, sN, sP, cs, cs, p)
 
 StreakCap == 9
 NextStreak(T, rd, s, prodKind) ==
